@@ -182,36 +182,49 @@ func modeC18(e *Env) {
 		pairCase(e, "window", a, b)
 	}
 	// (b) random wide sets: add histories of up to 12 operations, pairs
-	n := e.N(60, 1500)
+	n := e.N(150, 2500)
 	for i := 0; i < n; i++ {
 		rep := randRep(e.R, 1+e.R.Intn(4), 5, 1<<31-10)
 		set := buildSet(rep)
 		var ops []M
 		var obs []M
-		cur := replication.GTIDSet(set)
+		// every set obtained so far stays alive; a later AddGTID may take ANY of them as receiver (forks), and after each
+		// call the text of every set is read again: no call may change a set that already exists
+		all := []replication.GTIDSet{set}
 		nops := 1 + e.R.Intn(12)
 		for j := 0; j < nops; j++ {
+			ri := len(all) - 1
+			if e.R.Intn(3) == 0 {
+				ri = e.R.Intn(len(all))
+			}
+			cur := all[ri]
 			var g replication.Mysql56GTID
 			// aim at interval edges half of the time
 			if len(rep) > 0 && e.R.Intn(2) == 0 {
 				en := rep[e.R.Intn(len(rep))]
 				iv := en.Ivs[e.R.Intn(len(en.Ivs))]
-				cands := []int64{iv.S - 1, iv.S, iv.E, iv.E + 1, iv.E + 2, iv.S - 2}
+				cands := []int64{iv.S - 1, iv.S, iv.E, iv.E + 1, iv.E + 2, iv.S - 2, iv.E + 10 + int64(e.R.Intn(5))}
 				seq := cands[e.R.Intn(len(cands))]
 				if seq < 1 {
 					seq = 1
 				}
 				g = replication.Mysql56GTID{Server: replication.SID(en.Sid), Sequence: seq}
+			} else if e.R.Intn(2) == 0 && len(rep) > 0 {
+				// past the end of a server's last interval (appends)
+				en := rep[e.R.Intn(len(rep))]
+				last := en.Ivs[len(en.Ivs)-1]
+				g = replication.Mysql56GTID{Server: replication.SID(en.Sid), Sequence: last.E + 2 + int64(j*7) + int64(e.R.Intn(5))}
 			} else {
 				g = replication.Mysql56GTID{Server: replication.SID(sidN(1 + e.R.Intn(6))), Sequence: 1 + e.R.Int63n(1<<31-12)}
 			}
-			before := cur.String()
-			beforeBlock := cur.(replication.Mysql56GTIDSet).SIDBlock()
 			next := cur.AddGTID(g)
-			ops = append(ops, M{"sid": B(g.Server[:]), "n": g.Sequence})
-			obs = append(obs, M{"text": B(next.String()), "recvText": B(cur.String()), "recvSame": before == cur.String() &&
-				bytes.Equal(beforeBlock, cur.(replication.Mysql56GTIDSet).SIDBlock()), "has": next.ContainsGTID(g)})
-			cur = next
+			all = append(all, next)
+			texts := []B{}
+			for _, x := range all {
+				texts = append(texts, B(x.String()))
+			}
+			ops = append(ops, M{"sid": B(append([]byte{}, g.Server[:]...)), "n": g.Sequence, "recv": ri})
+			obs = append(obs, M{"texts": texts, "has": next.ContainsGTID(g)})
 		}
 		emitCase(e, M{"fn": "gs56.history", "cls": "wide", "rep": repJ(rep), "ops": ops, "obs": obs})
 		rep2 := randRep(e.R, 1+e.R.Intn(4), 5, 1<<31-10)
@@ -454,13 +467,16 @@ func modeC19(e *Env) {
 			set = append(set, g)
 			entries = append(entries, M{"dom": int64(g.Domain), "srv": int64(g.Server), "seq": int64(g.Sequence)})
 		}
+		// an independent copy taken BEFORE anything is printed: reading a set (String) must not change it, and the
+		// parsed text must equal the set as it was
+		orig := append(replication.MariadbGTIDSet{}, set...)
 		t1 := set.String()
-		o := M{"text": B(t1)}
+		o := M{"text": B(t1), "unchangedByString": set.Equal(orig) && orig.Equal(set)}
 		p, err := replication.VfParseGTIDSet("MariaDB", t1)
 		if err != nil || p == nil {
 			o["parseErr"], o["text2"], o["eq"] = true, B(nil), false
 		} else {
-			o["parseErr"], o["text2"], o["eq"] = false, B(p.String()), p.Equal(set)
+			o["parseErr"], o["text2"], o["eq"] = false, B(p.String()), p.Equal(orig) && orig.Equal(p)
 		}
 		// history of adds on the set
 		var ops, obs []M
